@@ -128,35 +128,40 @@ bool hazard_eras<Traits>::guard_ptr<T, MarkedPtr>::acquire_if_equal(const concur
     order = std::memory_order_acquire;
   }
 
-  // (2) - this load operation synchronizes-with any release operation on p.
-  // we have to use acquire here to ensure that the subsequent era_clock.load
-  // sees a value >= p.construction_era
-  auto p1 = p.load(order);
-  if (p1 == nullptr || p1 != expected) {
-    reset();
-    return p1 == expected;
-  }
-
-  const auto era = era_clock.load(std::memory_order_relaxed);
-  if (he != nullptr && he->guards() == 1) {
-    he->set_era(era);
-  } else {
-    if (he != nullptr) {
-      he->release_guard();
-      // alloc_hazard_era may throw -> we must not keep a reference to the released hazard era
-      he = nullptr;
-      this->ptr.reset();
+  era_t prev_era = he == nullptr ? 0 : he->get_era();
+  for (;;) {
+    // (2) - this load operation synchronizes-with any release operation on p.
+    // we have to use acquire here to ensure that the subsequent era_clock.load
+    // sees a value >= p.construction_era
+    auto p1 = p.load(order);
+    if (p1 == nullptr || p1 != expected) {
+      reset();
+      return p1 == expected;
     }
 
-    he = local_thread_data().alloc_hazard_era(era);
-  }
+    // Just like in acquire, the object is only protected once era_clock is found unchanged _after_ the era
+    // has been published. Comparing the pointer again is not sufficient - the object could have been reclaimed
+    // and the same address reused for a new object (with a later construction era) in the meantime.
+    const auto era = era_clock.load(std::memory_order_relaxed);
+    if (era == prev_era) {
+      this->ptr = p1;
+      return true;
+    }
 
-  this->ptr = p.load(std::memory_order_relaxed);
-  if (this->ptr != p1) {
-    reset();
-    return false;
+    if (he != nullptr && he->guards() == 1) {
+      he->set_era(era);
+    } else {
+      if (he != nullptr) {
+        he->release_guard();
+        // alloc_hazard_era may throw -> we must not keep a reference to the released hazard era
+        he = nullptr;
+        this->ptr.reset();
+      }
+
+      he = local_thread_data().alloc_hazard_era(era);
+    }
+    prev_era = era;
   }
-  return true;
 }
 
 template <class Traits>
